@@ -49,6 +49,15 @@ attach("C03", ["e2e_stream_c03"])
 attach("C12", ["e2e_stream_c12"])
 attach("C06", ["e2e_inject"])
 attach("C11", ["e2e_amp"])
+if "e2e_pn" in E2E_COMPONENTS:
+    attach("C08", ["e2e_pn"])
+if "e2e_cid" in E2E_COMPONENTS:
+    attach("C13", ["e2e_cid"])
+if "e2e_cc" in E2E_COMPONENTS:
+    attach("C09", ["e2e_cc"])
+    attach("C10", ["e2e_cc"])
+if "e2e_violate" in E2E_COMPONENTS:
+    attach("C04", ["e2e_violate"])
 
 
 # C16 covers the reassembly buffer too: its component lives in the C01 family
